@@ -14,6 +14,7 @@ import (
 	"github.com/mgtv-tech/redis-GunYu/config"
 	"github.com/mgtv-tech/redis-GunYu/pkg/metric"
 	usync "github.com/mgtv-tech/redis-GunYu/pkg/sync"
+	"github.com/mgtv-tech/redis-GunYu/pkg/verifhook"
 )
 
 type RdbWriter struct {
@@ -89,6 +90,7 @@ func NewRdbWriter(id string, r io.Reader, rdbDir string, offset int64, rdbSize i
 	})
 
 	fn := fmt.Sprintf("%s%c%d_%d.rdb.tmp", rdbDir, os.PathSeparator, offset, rdbSize)
+	verifhook.Point("store.fs", "rdb.create", fn)
 	fd, err := os.OpenFile(fn, os.O_WRONLY|os.O_CREATE|os.O_TRUNC, 0777)
 	if err != nil {
 		return nil, err
@@ -173,6 +175,7 @@ func (s *RdbWriter) write(buf []byte) error {
 		return io.EOF
 	}
 
+	verifhook.Point("store.fs", "rdb.append", s.fn)
 	n, err := s.writer.Write(buf)
 	if n > 0 {
 		s.offset += int64(n)
@@ -197,6 +200,7 @@ func (s *RdbWriter) closeRdb() (err error) {
 	err = errors.Join(err, s.writer.Close())
 
 	obr := s.observer.Load()
+	verifhook.Point("store.fs", "rdb.close", s.fn)
 	if s.pumped.Load() != s.rdbSize {
 		(*obr).Close(s.left, s.rdbSize, true)
 		return errors.Join(err, os.Remove(s.fn)) // remove *.rdb.tmp file
